@@ -137,6 +137,7 @@ def main(argv):
   obligations = discharged = 0
   undecided = []
   failed = []          # (result, clause name, clause dict)
+  probes = []          # undecided clauses for which the native side can probe a concrete configuration
   known_hits = []      # (result, cname, known dict)
   canary_ok = canary_bad = 0
   vcs = 0
@@ -176,7 +177,10 @@ def main(argv):
       elif c["status"] == "failed":
         failed.append((r, cname, c))
       else:
-        undecided.append((r["case"] + "/" + cname, c["reason"][:500]))
+        if c.get("probe") is not None and r["replay_kind"]:
+          probes.append((r, cname, c))
+        else:
+          undecided.append((r["case"] + "/" + cname, c["reason"][:500]))
 
   # ----- native replay of every counter-model (violations and known findings)
   jobs_files = []
@@ -192,6 +196,16 @@ def main(argv):
     c["replay_file"] = path
     if r["replay_kind"]:
       jobs_files.append(path)
+  for r, cname, c in probes:
+    ob = r["case"] + "/" + cname
+    path = os.path.join(VERIF, "replay", "probe_" + slug(ob) + ".json")
+    json.dump({"property": prop, "obligation": ob, "case": r["name"], "clause": cname,
+               "kind": r["replay_kind"], "witness": c["probe"], "role": "probe",
+               "solver": {"result": "unknown", "reason": c["reason"][:500]},
+               "note": "the solver could not decide this obligation; the native side probes the clause on concrete inputs for the configuration above (a bounded search, labelled as such)"},
+              open(path, "w"), indent=1)
+    c["replay_file"] = path
+    jobs_files.append(path)
   seen_known = {}
   if tier == "quick":
     # quick: replay natively one witness per finding; thorough: every obligation's witness
@@ -226,6 +240,14 @@ def main(argv):
                         "counter-model refuted by native replay (artefact of an assumption): %s" % json.dumps(c["witness"])))
     else:
       undecided.append((r["case"] + "/" + cname, "native replay error: %s" % d.get("native")))
+  for r, cname, c in probes:
+    d = json.load(open(c["replay_file"]))
+    nat = d.get("native", {}).get("status")
+    if nat == "confirmed":
+      c["witness"] = c["probe"]
+      violations.append((r, cname, c, ""))
+    else:
+      undecided.append((r["case"] + "/" + cname, "solver undecided and native probe found nothing (%s): %s" % (nat, c["reason"][:300])))
   known_confirmed = {}
   known_unconfirmed = []
   for r, cname, k in known_hits:
